@@ -14,6 +14,7 @@ import (
 	"github.com/emmansun/gmsm/verifhook"
 
 	"verif/harness/model/sm2m"
+	"verif/harness/model/sm3m"
 	"verif/harness/sim"
 )
 
@@ -26,7 +27,11 @@ import (
 // else, without panicking, leaving its objects usable.
 
 func init() {
-	SelfTests = append(SelfTests, sm2m.SelfTest)
+	selfTests("C12", sm3m.SelfTest, sm2m.SelfTest)
+	for _, id := range []string{"C06", "C07", "C08", "C15", "C16"} {
+		SelfTestsOf[id] = append(SelfTestsOf[id], sm3m.SelfTest, sm2m.SelfTest)
+	}
+	SelfTestsOf["C10"] = append(SelfTestsOf["C10"], sm3m.SelfTest)
 	register(&Prop{
 		ID:        "C12",
 		Level:     "fault_enumeration",
